@@ -146,6 +146,13 @@ def make_edits(lines, ms, n_tag, ever=()):
             new = list(lines)
             new[li["idx"]] = (li["id"], " " * li["indent"] + CHANGE[li["name"]].format(n=n_tag))
             out.append((f"change-{which}:{li['name']}", new, "reject"))
+        # a blank or comment line that the interpreter has passed is a passed line too: filling it in changes what has run
+        blanks = [li for li in info if li["id"] in ids and li["blank"]]
+        if blanks:
+            li = blanks[0]
+            new = list(lines)
+            new[li["idx"]] = (li["id"], " " * li["indent"] + f"Mark: w{n_tag}")
+            out.append((f"change-{which}:Blank", new, "reject"))
         # same text, other indentation: the line moves into / out of a body, which also changes a started line
         leafs = [li for li in info if li["id"] in ids and not li["blank"] and not li["opener"] and li["idx"] > 0]
         if leafs:
